@@ -1,6 +1,7 @@
 package main
 
 import (
+	"errors"
 	"bytes"
 	"context"
 	"encoding/json"
@@ -20,6 +21,30 @@ func mkRecord(level slog.Level, msg string, attrs []slog.Attr) slog.Record {
 
 // reference: what slog.TextHandler prints for the record with the handler's accumulated attributes
 // appended (after the record's own)
+// jhOpts: the handler options of a jh case (mode 0 = level only; see execJH for the others)
+func jhOpts(hl slog.Level, mode byte) *slog.HandlerOptions {
+	opts := &slog.HandlerOptions{Level: hl}
+	switch mode {
+	case 'a':
+		opts.ReplaceAttr = func(groups []string, a slog.Attr) slog.Attr {
+			if len(groups) == 0 && (a.Key == slog.TimeKey || a.Key == slog.LevelKey || a.Key == slog.MessageKey) {
+				return slog.Attr{}
+			}
+			return a
+		}
+	case 't':
+		opts.ReplaceAttr = func(groups []string, a slog.Attr) slog.Attr {
+			if len(groups) == 0 && a.Key == slog.TimeKey {
+				return slog.Attr{}
+			}
+			return a
+		}
+	case 'u':
+		opts.ReplaceAttr = func(_ []string, a slog.Attr) slog.Attr { a.Key = strings.ToUpper(a.Key); return a }
+	}
+	return opts
+}
+
 func refText(opts *slog.HandlerOptions, chain [][]slog.Attr, r slog.Record) string {
 	var buf bytes.Buffer
 	h := slog.NewTextHandler(&buf, opts)
@@ -60,15 +85,23 @@ func decodeAttrs(s string) []slog.Attr {
 func execJH(args []string) string {
 	hl, rl := slog.Level(Atoi(args[0])), slog.Level(Atoi(args[1]))
 	msg := string(UnH(args[2]))
+	// an optional "!<mode>|" in front of the chain selects HandlerOptions.ReplaceAttr:
+	// a = drop time, level and msg (the text line can then be empty), t = drop time only,
+	// u = upper-case every key
+	chainArg, mode := args[4], byte(0)
+	if strings.HasPrefix(chainArg, "!") && len(chainArg) >= 2 {
+		mode = chainArg[1]
+		chainArg = strings.TrimPrefix(chainArg[2:], "|")
+	}
 	var chain [][]slog.Attr
-	for _, c := range SplitList(args[4], "|") {
+	for _, c := range SplitList(chainArg, "|") {
 		if c == "." {
 			chain = append(chain, nil)
 		} else {
 			chain = append(chain, decodeAttrs(c))
 		}
 	}
-	opts := &slog.HandlerOptions{Level: hl}
+	opts := jhOpts(hl, mode)
 	var out bytes.Buffer
 	var h slog.Handler = slogutil.NewJSONHybridHandler(&out, opts)
 	for _, as := range chain {
@@ -177,7 +210,69 @@ func execJHSeq(args []string) string {
 	return strings.Join(res, ",")
 }
 
+// faultyWriter panics in its k-th Write and works otherwise.
+type faultyWriter struct {
+	buf   bytes.Buffer
+	n, k  int
+	fault string // "panic" or "err"
+}
+
+func (w *faultyWriter) Write(p []byte) (int, error) {
+	w.n++
+	if w.n == w.k {
+		if w.fault == "panic" {
+			panic("writer fault")
+		}
+		return 0, errors.New("writer error")
+	}
+	return w.buf.Write(p)
+}
+
+// jhfault: args = k, n, fault kind.  n records go through a handler and a handler derived from it,
+// alternately; the writer fails in its k-th Write.  The caller recovers a panic, as a server's
+// middleware would.  Every other record must still produce its one line: a record that does not
+// come back within 3 s is reported as blocked.
+func execJHFault(args []string) string {
+	k, n := Atoi(args[0]), Atoi(args[1])
+	w := &faultyWriter{k: k, fault: args[2]}
+	var root slog.Handler = slogutil.NewJSONHybridHandler(w, nil)
+	child := root.WithAttrs([]slog.Attr{slog.String("c", "1")})
+	var out []string
+	for i := 1; i <= n; i++ {
+		h := root
+		if i%2 == 0 {
+			h = child
+		}
+		res := make(chan string, 1)
+		go func() {
+			defer func() {
+				if v := recover(); v != nil {
+					res <- "p"
+				}
+			}()
+			if err := h.Handle(context.Background(), mkRecord(slog.LevelInfo, "m"+I(i), nil)); err != nil {
+				res <- "e"
+				return
+			}
+			res <- "ok"
+		}()
+		select {
+		case r := <-res:
+			out = append(out, r)
+		case <-time.After(3 * time.Second):
+			return strings.Join(append(out, "blocked"), ",") + " lines=" + I(bytes.Count(w.buf.Bytes(), []byte("\n"))) + " spec=bad:record-" + I(i) + "-never-written"
+		}
+	}
+	return strings.Join(out, ",") + " lines=" + I(bytes.Count(w.buf.Bytes(), []byte("\n")))
+}
+
 func genC19(g *G) {
+	// (only the panic kind: after a writer *error* encoding/json's Encoder keeps returning that error,
+	// so later records are lost with the library as it is; C19 does not speak of failing writers, and
+	// this is noted in DESIGN.md rather than judged)
+	for k := 1; k <= 4; k++ {
+		g.Emit("jhfault", I(k), "5", "panic")
+	}
 	for _, lens := range [][]int{{3, 70000, 5, 5}, {300, 10, 66000, 1, 0}, {0, 0}, {5000, 4000, 3000}} {
 		var ls, refs []string
 		for _, n := range lens {
@@ -235,7 +330,16 @@ func genC19(g *G) {
 				chainA = append(chainA, decodeAttrs(c))
 			}
 		}
-		ref := refText(&slog.HandlerOptions{Level: slog.Level(hl)}, chainA, mkRecord(slog.Level(rl), msg, decodeAttrs(recAttrs)))
+		mode := byte(0)
+		if g.Rnd.IntN(4) == 0 {
+			mode = "atu"[g.Rnd.IntN(3)]
+			if mode == 'a' && g.Rnd.IntN(2) == 0 {
+				// nothing left to print: the text line is empty
+				recAttrs, chain, chainS, chainA = "", nil, "", nil
+			}
+			chainS = "!" + string(mode) + "|" + chainS
+		}
+		ref := refText(jhOpts(slog.Level(hl), mode), chainA, mkRecord(slog.Level(rl), msg, decodeAttrs(recAttrs)))
 		g.Emit("jh", I(hl), I(rl), HS(msg), recAttrs, chainS, HS(ref))
 	}
 	// derivation trees: depth <= 5, fan-out <= 3, 1..3 attributes per edge (spare capacity arises from depth 2)
@@ -269,7 +373,7 @@ func genC19(g *G) {
 func init() {
 	properties["C19"] = &Property{
 		Gen:  genC19,
-		Exec: map[string]Executor{"jh": execJH, "jhtree": execJHTree, "jhseq": execJHSeq},
+		Exec: map[string]Executor{"jh": execJH, "jhtree": execJHTree, "jhseq": execJHSeq, "jhfault": execJHFault},
 		Class: func(fn string, args []string, obs string) string {
 			if strings.Contains(obs, "spec=bad") {
 				return fn + ":spec-bad"
